@@ -49,23 +49,41 @@ from common import run_driver, WORK  # noqa: E402
 from props.moncommon import (Mon, DEVS, WIDTHS, install_timer, core_of, tohex, unhex)  # noqa: E402
 
 ID = 'C20'
-LEAN_MODULES = ['Py65.Props.C20']
-NAMESPACES = ['Py65.Props.C20']
+LEAN_MODULES = ['Py65.Props.C20', 'Py65.Proofs.MonPreGenEq', 'Py65.Props.C20g']
+NAMESPACES = ['Py65.Props.C20', 'Py65.Proofs.MonPreGenEq', 'Py65.Props.C20g']
 LEVEL = 'proof'
 USES_PROLOGUE = True
 USES_GEN = False
 EXPECTED_THEOREMS = [
     'Py65.Props.C20.dispatch_total', 'Py65.Props.C20.quit_forms', 'Py65.Props.C20.rejected_unchanged',
     'Py65.Props.C20.registers_exact', 'Py65.Props.C20.shortcut_equiv', 'Py65.Props.C20.quit_forms_exit',
+    # tie by regeneration: generated table and _preprocess_line = hand model, theorems restated for them
+    'Py65.Proofs.MonPreGenEq.shortcuts_eq', 'Py65.Proofs.MonPreGenEq.for1_eq', 'Py65.Proofs.MonPreGenEq.for2_eq',
+    'Py65.Proofs.MonPreGenEq.preprocess_eq',
+    'Py65.Props.C20g.preprocess_is_generated', 'Py65.Props.C20g.shortcuts_is_generated',
+    'Py65.Props.C20g.shortcut_equiv', 'Py65.Props.C20g.dispatch_total',
 ]
 RULE = ('a line counts as non-trivial when the real monitor dispatched it to a command or refused it '
         '(i.e. everything except blank lines with nothing to repeat); distinct = distinct '
         '(device, dispatched command word, argument class, noise class, outcome class) tuples among those, '
         'outcome class in {ok, exit, unknown, syntax, label, overflow, illegal, raised}')
 TRUSTED = [
-    'hand model Py65.Model.MonCmd (preprocess, cmd.Cmd.parseline/onecmd/emptyline, shlex.split, the two '
-    'regular expressions as deterministic scanners, the state-owning commands) -- tied to the real '
-    'Monitor.onecmd by sampled correspondence only (this check)',
+    'REGENERATED on every run: Monitor._add_shortcuts (the table as data, dict order included) and '
+    'Monitor._preprocess_line (comment loop with the quote toggle, strip(\' \\t\').lstrip(\'.\'), the ~ special '
+    'case, the shortcut loop with `line == shortcut` and the regular expression) are translated from the current '
+    'py65/monitor.py by harness/py2lean_mon.py into lean/Py65/Gen/MonPreGen.lean; '
+    'Py65.Proofs.MonPreGenEq.preprocess_eq / shortcuts_eq prove them equal to the hand model '
+    '(MonCmd.preprocessL, MonCmd.shortcuts) for ALL lines, and Py65.Props.C20g restates shortcut_equiv and '
+    'dispatch_total for the generated definitions.  A source change that breaks the equality, or that the '
+    'translator refuses (e.g. any other regex literal), is a broken tie',
+    'hand model Py65.Model.MonCmd (cmd.Cmd.parseline/onecmd/emptyline, shlex.split, the two '
+    'regular expressions as deterministic scanners, the state-owning commands; preprocess also hand-modelled, see '
+    'above) -- tied to the real Monitor.onecmd by sampled correspondence (this check)',
+    'harness/py2lean_mon.py (Python subset -> Lean) and the library helpers the generated text calls '
+    '(lean/Py65/Model/MonGenRt.lean): pySliceTo / pySliceFrom (s[:i], s[i:]), pyStripChars / pyLstripChars, '
+    'PyStr.startsWith, and reMatchLitSpaces = re.match(r\'^%s\\s+\' % re.escape(lit), line).span() -- "starts with '
+    'this literal followed by at least one whitespace character; end of the whitespace run" (ASCII \\s); the regex '
+    'is mapped only when its exact pattern string is in the translator\'s table',
     'CPython 3.12 cmd.Cmd, shlex, re, str.strip/lstrip, int(str) are modelled for ASCII input, not verified',
     'commands whose effect on registers/memory is modelled elsewhere (assemble, fill, load, goto, step, '
     'return) are an abstract parameter `Ext` of the dispatcher; rejected_unchanged assumes Ext.Honest '
@@ -81,7 +99,16 @@ ASSUMPTIONS = [
     'an empty line repeats the previous command (cmd.Cmd); if that command was a quit form the empty line '
     'requests exit as well -- counted as the quit form repeated',
     'interactive assembly reads further lines from stdin: they are part of that command, not command lines',
+    'tie by regeneration covers _add_shortcuts and _preprocess_line; cmd.Cmd.onecmd/parseline and the commands '
+    'remain hand-modelled (correspondence).  The translator resolves self._shortcuts[\'~\'] against the table '
+    'literal of _add_shortcuts and checks that nothing else assigns self._shortcuts',
 ]
+
+def pre_build(ctx):
+    """translator tie: regenerate lean/Py65/Gen/MonPreGen.lean from the current monitor.py"""
+    from props import montie
+    return montie.pre_build(ctx, 'pre')
+
 
 SHORTCUTS = {'EOF': 'quit', '~': 'tilde', 'a': 'assemble', 'ab': 'add_breakpoint', 'al': 'add_label',
              'd': 'disassemble', 'db': 'delete_breakpoint', 'dl': 'delete_label', 'exit': 'quit',
